@@ -343,6 +343,39 @@ def taylor_roundtrip(dim):
 
 
 # ---- concrete structures: star sets, vector star sets, Green-function calculator --------------------------
+def deep_equal(a, b, depth=0):
+    """structural equality of plain data (numbers, strings, arrays, lists / tuples, dicts, sets); objects of library classes are
+    compared through their attribute dictionaries (cycle guard by depth); anything else by type only"""
+    if depth > 6:
+        return True
+    if isinstance(a, np.ndarray) or isinstance(b, np.ndarray):
+        try:
+            a_, b_ = np.asarray(a), np.asarray(b)
+            return a_.shape == b_.shape and bool(np.all(a_ == b_))
+        except Exception:   # noqa
+            return False
+    if isinstance(a, (int, float, complex, str, bool, type(None), np.integer, np.floating)):
+        return type(a) is type(b) or isinstance(b, (int, float, np.integer, np.floating)) and a == b if not isinstance(a, (str, type(None))) else a == b
+    if isinstance(a, (list, tuple)):
+        return isinstance(b, (list, tuple)) and len(a) == len(b) and all(deep_equal(x, y, depth + 1) for x, y in zip(a, b))
+    if isinstance(a, dict):
+        if not isinstance(b, dict) or len(a) != len(b):
+            return False
+        try:
+            return all(k in b and deep_equal(v, b[k], depth + 1) for k, v in a.items())
+        except TypeError:
+            return True
+    if isinstance(a, (set, frozenset)):
+        return isinstance(b, (set, frozenset)) and len(a) == len(b)
+    if type(a) is not type(b):
+        return False
+    if hasattr(a, '__eq__') and type(a).__module__.startswith('onsager') and type(a).__name__ in ('PairState', 'GroupOp', 'ClusterSite'):
+        return bool(a == b)
+    if hasattr(a, '__dict__') and type(a).__module__.startswith('onsager') and type(a).__name__ in ('StarSet', 'VectorStarSet'):
+        return all(deep_equal(v, b.__dict__.get(k), depth + 1) for k, v in a.__dict__.items() if k not in ('crys', 'starset'))
+    return True
+
+
 def struct_roundtrip(cfg):
     def fn(src=None):
         src = src or Src()
@@ -367,9 +400,23 @@ def struct_roundtrip(cfg):
            and all(np.allclose(np.array(a), np.array(b), atol=0) for a, b in zip(v2.vecvec, calc.vkinetic.vecvec))
            and np.allclose(v2.outer, calc.vkinetic.outer, atol=0))
         gf = getattr(calc, 'GFcalc_real', calc.GFcalc)
+        # the reloaded calculators carry the same data as the originals, attribute by attribute (everything that both have)
+        keep = calc.GFcalc
+        calc.GFcalc = gf
+        calc.clearcache()
+        st = new_store()
+        calc.addhdf5(st.create_group('D') if REPLAY else st)
+        c2 = OnsagerCalc.VacancyMediated.loadhdf5(st['D'] if REPLAY else st)
+        calc.GFcalc = keep
+        bad = sorted(k for k, v in calc.__dict__.items() if k in c2.__dict__ and k not in ('crys', 'GFcalc', 'GFcalc_real', 'GFvalues', 'Lvvvalues', 'etavvalues')
+                     and v is not None and not deep_equal(v, c2.__dict__[k]))
+        ob('vacancymediated-attributes-equal', not bad)
         st = new_store()
         gf.addhdf5(st.create_group('G') if REPLAY else st)
         g2 = GFcalc.GFCrystalcalc.loadhdf5(crys, st['G'] if REPLAY else st)
+        badg = sorted(k for k, v in gf.__dict__.items() if k in g2.__dict__ and k not in ('crys',) and v is not None and not callable(v)
+                      and not deep_equal(v, g2.__dict__[k]))     # (None: state that only SetRates fills)
+        ob('gfcalc-attributes-equal', not badg)
         pre = np.ones(len(calc.sitelist))
         ene = 0.125 * np.arange(len(calc.sitelist))
         preT = np.ones(len(calc.om0_jn))
